@@ -26,12 +26,86 @@ def load_variants():
     return vs + TWINS
 
 
+def _rename_in_function(src: str, func: str, ren: dict) -> str | None:
+    """rename local identifiers (NAME tokens not preceded by '.', not keyword
+    names in calls) inside the function ``Class.method`` / ``func``"""
+    import ast
+    import io
+    import tokenize
+    tree = ast.parse(src)
+    target = None
+    parts = func.split(".")
+
+    def find(body, parts):
+        for n in body:
+            if isinstance(n, (ast.FunctionDef, ast.ClassDef)) and n.name == parts[0]:
+                if len(parts) == 1:
+                    return n      # (for overloads the last definition wins below)
+                r = find(n.body, parts[1:])
+                if r is not None:
+                    return r
+        return None
+    # last definition with that name (overloads come first)
+    cands = []
+
+    def collect(body, parts):
+        for n in body:
+            if isinstance(n, (ast.FunctionDef, ast.ClassDef)) and n.name == parts[0]:
+                if len(parts) == 1:
+                    cands.append(n)
+                else:
+                    collect(n.body, parts[1:])
+    collect(tree.body, parts)
+    if not cands:
+        return None
+    target = cands[-1]
+    lo, hi = target.lineno, target.end_lineno
+    toks = list(tokenize.generate_tokens(io.StringIO(src).readline))
+    lines = src.splitlines(keepends=True)
+    edits = []
+    found = set()
+    stack = []
+    for i, t in enumerate(toks):
+        if t.type == tokenize.OP and t.string in "([{":
+            stack.append(t.string)
+        elif t.type == tokenize.OP and t.string in ")]}" and stack:
+            stack.pop()
+        if t.type == tokenize.NAME and t.string in ren and lo <= t.start[0] <= hi:
+            prev = toks[i - 1] if i else None
+            nxt = toks[i + 1] if i + 1 < len(toks) else None
+            if prev is not None and prev.type == tokenize.OP and prev.string == ".":
+                continue
+            if nxt is not None and nxt.type == tokenize.OP and nxt.string == "=" \
+                    and prev is not None and prev.string in ("(", ",") \
+                    and stack and stack[-1] == "(":
+                # keyword argument name in a call (or a defaulted parameter)
+                continue
+            edits.append((t.start, t.end, ren[t.string]))
+            found.add(t.string)
+    if found != set(ren):
+        return None
+    for (sl, sc), (_el, ec), new in sorted(edits, reverse=True):
+        line = lines[sl - 1]
+        lines[sl - 1] = line[:sc] + new + line[ec:]
+    return "".join(lines)
+
+
 def _apply(scratch: Path, edits) -> bool:
     for e in edits:
         p = scratch / e["file"]
         if not p.exists():
             return False
         s = p.read_text()
+        if "rename" in e:
+            s2 = _rename_in_function(s, e["func"], e["rename"])
+            if s2 is None:
+                return False
+            try:
+                compile(s2, str(p), "exec")
+            except SyntaxError:
+                return False
+            p.write_text(s2)
+            continue
         if s.count(e["old"]) < 1:
             return False
         p.write_text(s.replace(e["old"], e["new"], 1))
